@@ -138,7 +138,9 @@ theorem lookup_returns_holder (h : List Op) (ok : okHist init h = true) (a : Val
 def Seen (s : Store) (a : Val) : Prop := ∃ r ∈ s.records, r.addressIn = a
 
 theorem creates_iff (s : Store) (op : Op) :
-    creates s op = true ↔ ∃ a p, op = .matchIncoming a true p ∧ ¬ Seen s a := by
+    creates s op = true ↔
+      (∃ a p, op = .matchIncoming a true p ∧ ¬ Seen s a) ∨
+      (∃ a pre e, op = .matchIncomingBad a true pre e ∧ ¬ Seen s a) := by
   have key : ∀ a, (s.first (fun r => r.addressIn == a)).isNone = true ↔ ¬ Seen s a := by
     intro a
     simp only [Seen, Store.records, List.mem_filterMap]
@@ -161,19 +163,33 @@ theorem creates_iff (s : Store) (op : Op) :
     | true =>
       simp only [creates, key]
       constructor
-      · intro hn; exact ⟨a, p, rfl, hn⟩
-      · rintro ⟨a', p', he, hn⟩; cases he; exact hn
+      · intro hn; exact Or.inl ⟨a, p, rfl, hn⟩
+      · rintro (⟨a', p', he, hn⟩ | ⟨a', p', e', he, _⟩)
+        · cases he; exact hn
+        · cases he
     | false =>
       simp only [creates, Bool.false_eq_true, false_iff]
-      rintro ⟨a', p', he, _⟩; cases he
+      rintro (⟨a', p', he, _⟩ | ⟨a', p', e', he, _⟩) <;> cases he
+  | matchIncomingBad a au pre e =>
+    cases au with
+    | true =>
+      simp only [creates, key]
+      constructor
+      · intro hn; exact Or.inr ⟨a, pre, e, rfl, hn⟩
+      · rintro (⟨a', p', he, _⟩ | ⟨a', p', e', he, hn⟩)
+        · cases he
+        · cases he; exact hn
+    | false =>
+      simp only [creates, Bool.false_eq_true, false_iff]
+      rintro (⟨a', p', he, _⟩ | ⟨a', p', e', he, _⟩) <;> cases he
   | _ =>
     simp only [creates, Bool.false_eq_true, false_iff]
-    rintro ⟨a', p', he, _⟩
-    cases he
+    rintro (⟨a', p', he, _⟩ | ⟨a', p', e', he, _⟩) <;> cases he
 
 /-- **creates_only_on_autocreate_unseen.** In *every* state (no precondition) an operation creates a
 repeater object exactly when it is an auto-creating `match_incoming` of an address no stored record
-has; it then creates exactly one.  Under P1/P2 `len(storage)` is the number of objects created, so
+has (whether its patch is well formed or raises: the record is stored before the patch runs); it then
+creates exactly one.  Under P1/P2 `len(storage)` is the number of objects created, so
 the same holds for `len(storage)`. -/
 theorem creates_only_on_autocreate_unseen (h : List Op) (op : Op) :
     (step (run h).1 op).1.objs.length
@@ -195,7 +211,7 @@ theorem len_grows_only_on_autocreate_unseen (h : List Op) (op : Op) (ok : okHist
 `match_uuid` (and `save`, `attr`, `delete_attr`, `patch`) never change `len(storage)` (P1/P2), and
 never create an object (unconditionally). -/
 theorem lookup_never_grows (h : List Op) (op : Op) (ok : okHist init (h ++ [op]) = true)
-    (hop : ∀ a p, op ≠ .matchIncoming a true p) :
+    (hop : ∀ a p, op ≠ .matchIncoming a true p) (hop' : ∀ a pre e, op ≠ .matchIncomingBad a true pre e) :
     (step (run h).1 op).1.len = (run h).1.len ∧
     (step (run h).1 op).1.objs.length = (run h).1.objs.length := by
   have hc : creates (run h).1 op = false := by
@@ -203,6 +219,10 @@ theorem lookup_never_grows (h : List Op) (op : Op) (ok : okHist init (h ++ [op])
     | matchIncoming a au p =>
       cases au with
       | true => exact absurd rfl (hop a p)
+      | false => rfl
+    | matchIncomingBad a au pre e =>
+      cases au with
+      | true => exact absurd rfl (hop' a pre e)
       | false => rfl
     | _ => rfl
   constructor
@@ -255,12 +275,58 @@ theorem patch_exactly_named (p : Patch) (r : Rec) (hn : (p.map Prod.fst).Nodup) 
    fun f hf => applyPatch_get_unnamed p r f hf,
    fun k hk => applyPatch_attr_unnamed p r k hk⟩
 
-/-- an operation that raises (`save(None, patch)`, `match_incoming` of an unseen address with a patch
-and without auto-create, `delete_attr` of a missing key, `match_uuid` miss, `match_attr` of an unknown
-name, `match_ip_incoming` over a non-tuple address) leaves the storage exactly as it was -/
-theorem error_leaves_state (h : List Op) (op : Op) (e : Err) (he : (step (run h).1 op).2 = .err e) :
+/-- an operation with a well-formed patch that raises (`save(None, patch)`, `match_incoming` of an unseen
+address with a patch and without auto-create, `delete_attr` of a missing key, `match_uuid` miss,
+`match_attr` of an unknown or non-`str` name, `match_ip_incoming` over a non-tuple address) leaves the
+storage exactly as it was -/
+theorem error_leaves_state (h : List Op) (op : Op) (e : Err) (hw : op.malformed = false)
+    (he : (step (run h).1 op).2 = .err e) :
     (step (run h).1 op).1 = (run h).1 :=
-  step_err_state _ op e he
+  step_err_state _ op e hw he
+
+/-! ## error path: malformed patches (a key that is no `str`, a patch that is no mapping)
+
+`Repeater.patch` raises in the middle of its loop.  What is left behind: the entries before the offending
+one are applied to the matched record (`malformed_patch_partial`), every other record is untouched
+(`patch_local_others`, which holds for every operation), the dictionary is the old one plus the record an
+auto-creating lookup of an unseen address created before its patch raised (`malformed_patch_keeps_records`),
+and all invariants go on (`ids_unique`, `never_evicts`, `same_address_same_object`, … quantify over
+histories that contain such calls).  In particular a record that existed before the call exists after it,
+with or without `auto_create`. -/
+
+/-- a call with a malformed patch raises -/
+theorem malformed_patch_raises (h : List Op) (op : Op) (hm : op.malformed = true) :
+    ∃ e, (step (run h).1 op).2 = .err e :=
+  step_malformed_err _ op hm
+
+/-- **malformed_patch_keeps_records.** … and never removes or replaces a dictionary entry (unconditional) -/
+theorem malformed_patch_keeps_records (h : List Op) (op : Op) (hm : op.malformed = true) :
+    (step (run h).1 op).1.dict =
+      if creates (run h).1 op then
+        dictSet (run h).1.dict (.uuid (run h).1.objs.length) (run h).1.objs.length
+      else (run h).1.dict :=
+  step_malformed_dict _ op hm
+
+/-- … under P1/P2 every record stored before the call is stored after it, at the same place -/
+theorem malformed_patch_never_evicts (h : List Op) (op : Op) (ok : okHist init (h ++ [op]) = true) :
+    (run h).1.refs <+: (step (run h).1 op).1.refs := by
+  rw [okHist_append, Bool.and_eq_true] at ok
+  have inv := inv_run h ok.1
+  have okop : okOp (run h).1 op = true := by
+    have := ok.2
+    rw [okHist_cons, Bool.and_eq_true] at this
+    exact this.1
+  rw [(inv_step inv op okop).refs_eq, inv.refs_eq, step_objs_length, List.range_add]
+  exact List.prefix_append _ _
+
+/-- **malformed_patch_partial.** the matched record of `match_incoming(a, …, patch)` with a malformed patch
+is `Repeater.patch` of the entries before the offending one (for a non-mapping: none) -/
+theorem malformed_patch_partial (h : List Op) (a : Val) (au : Bool) (pre : Patch) (e : Err) (x : Nat) (r : Rec)
+    (hf : (run h).1.first (fun r => r.addressIn == a) = some x) (hr : (run h).1.objs[x]? = some r) :
+    (step (run h).1 (.matchIncomingBad a au pre e)).1.objs[x]? = some (applyPatch pre r) ∧
+    (step (run h).1 (.matchIncomingBad a au pre e)).2 = .err e := by
+  simp only [step, Store.matchIncomingBad, hf]
+  exact saveBad_target _ x pre e r hr
 
 /-! ## dynamic attributes are addressed by the exact key — no normalisation of names
 
@@ -403,6 +469,35 @@ example :
     okHist init ([.matchIncoming A0 true []] ++ Op.matchIncoming A1 true [(.dyn "k", .int 1)] ::
       ([.attr 1 "k" (.int 5), .matchIncoming A0 false []] ++ [Op.matchIncoming A1 false [(.field .addressIn, A2)]])) = true := by
   decide
+
+/-- peer addresses of other shapes: asyncio hands an AF_INET6 peer over as `(host, port, flowinfo, scope_id)`.
+Two peers that differ only in the scope id are two records, the same 4-tuple again is the same record, the
+2-tuple `(host, port)` and the list `[host, port]` are other peers again (Python: none of them are `==`) -/
+example :
+    let a6 : Val := .tupN [102] [50000, 0, 0]
+    let b6 : Val := .tupN [102] [50000, 0, 3]
+    let h : List Op :=
+      [.matchIncoming a6 true [], .matchIncoming b6 true [(.dyn "k", .int 1)], .matchIncoming a6 true [],
+       .matchIncoming (.addr [102] 50000) false [], .matchIncoming (.lstN [102] [50000]) true [],
+       .matchIncoming b6 false [], .matchIncoming (.addrS [102] [53]) true [], .matchIpIncoming [102]]
+    okHist init h = true ∧
+    (run h).2 = [.obj 0, .obj 1, .obj 0, .none, .obj 2, .obj 1, .obj 3, .obj 0] ∧ (run h).1.len = 4 := by decide
+
+/-- error path: a known peer, `auto_create=True`, a patch whose second key is no `str` raises `TypeError` with the
+first entry applied; a list of pairs raises `AttributeError` with nothing applied, for an unseen address after the
+record was created; `save` / `Repeater.patch` alike.  Every record stays and is returned for its address. -/
+example :
+    let h : List Op :=
+      [.matchIncoming A0 true [(.field .dmrId, .int 7)], .matchIncoming A1 true [],
+       .matchIncomingBad A0 true [(.dyn "k", .int 5)] .typeError, .matchIncomingBad A2 true [] .attributeError,
+       .saveBad (some 1) [] .typeError, .patchBad 1 [(.field .callsign, .str [88])] .typeError,
+       .matchIncomingBad (.addr [] 9) false [] .typeError, .saveBad Option.none [] .typeError,
+       .matchIncoming A0 false [], .matchUuid (.uuid 0), .attr 0 "k" .none, .matchIncoming A2 false [],
+       .matchAttr .bad (.int 1)]
+    okHist init h = true ∧
+    (run h).2 = [.obj 0, .obj 1, .err .typeError, .err .attributeError, .err .typeError, .err .typeError,
+                 .err .attributeError, .err .attributeError, .obj 0, .obj 0, .val (.int 5), .obj 2, .err .typeError] ∧
+    (run h).1.len = 3 ∧ (run h).1.records.map Rec.callsign = [.str [], .str [88], .str []] := by decide
 
 /-! ## what the code does where the preconditions are crossed (kernel-checked replays)
 
